@@ -301,7 +301,15 @@ def main():
         ],
         'checks': checks,
         'not_applicable': [{'property_id': pid, 'reason': NOT_YET} for pid in sorted(TITLES) if pid not in CHECKS],
-        'notes': 'fix: commits in /repo are listed in known_findings.json (fixed). See DESIGN.md.',
+        'notes': (
+            'DESIGN.md section 10 describes what exists (sections 1-9 are the original plan). Every check: (1) regenerates the '
+            'source-derived constants, (2) rebuilds coq/Properties/<id>.vo with a full coqc build and audits Print Assumptions, '
+            '(3) drives the real forml code in /repo on generated cases, judges the observations with an oracle written from the '
+            'property text, and evaluates the Gallina model on the same cases inside Coq (vm_compute). Known findings (genuine '
+            'defects of /repo recorded, not repaired) and the fix: commits made in /repo are in known_findings.json; seeded '
+            'changes used to measure detection are under seeded/ (80, all caught by the quick tier). Honours VERIF_SEED / '
+            'VERIF_TIER. Expected durations: quick 3-45 s per property; thorough up to about 26 min (C17), see DESIGN.md 10.2.'
+        ),
     }
     (ROOT / 'MANIFEST.json').write_text(json.dumps(doc, indent=1) + '\n')
 
